@@ -462,6 +462,8 @@ class CDSInterval(AbstractFeatureInterval):
         else:
             window_fn = self._prepare_single_exon_window_for_scan_codon_locations
         location, offset = window_fn(relative_window=None, chunk_relative_coordinates=True)
+        if location.is_empty:
+            return Sequence("", Alphabet.NT_EXTENDED, validate_alphabet=False)
         seq = str(location.extract_sequence())[offset : len(location) - ((len(location) - offset) % 3)]
         return Sequence(seq, Alphabet.NT_EXTENDED, validate_alphabet=False)
 
@@ -764,6 +766,9 @@ class CDSInterval(AbstractFeatureInterval):
             chunk_relative_cleaned_location = self.liftover_location_to_seq_chunk_parent(
                 relative_cleaned_location, self.chunk_relative_location.parent
             )
+            # only bases that are skipped to get in frame lie on the sequence chunk: there are no codons on it
+            if chunk_relative_cleaned_location.is_empty:
+                return chunk_relative_cleaned_location, 0
             # lift this back to chromosome coordinates -- this produces a chromosome coordinate Location
             # whose bounds are the portion of this CDS that are contained on the sequence chunk
             loc_on_chrom = chunk_relative_cleaned_location.lift_over_to_first_ancestor_of_type(SequenceType.CHROMOSOME)
